@@ -12,6 +12,7 @@ import sqlite3
 
 import numpy as np
 
+from harness import classify_common as K
 from harness import common as C
 from harness import dataset as D
 from harness import gen_classify as G
@@ -191,27 +192,31 @@ def read_classification(db):
     return flags, inter
 
 
-def cl_case(rec, d):
-    """Run load + classify on a record. Returns dict with per-stretch data."""
+def cl_case(rec, d, out):
+    """Run load + classify (at the verbosity rec['verb']) on a record. Returns dict with per-stretch data."""
     ds = G.to_dataset(rec)
     db, rc, exc = D.load(ds, d)
     if exc is not None:
         return dict(stage='load', exc=exc)
-    rc, exc, _ = D.cli(['classify', db, '-s', rec['thr_s'], '-j', rec['thr_j']])
+    rc, exc, _ = K.classify_cli(db, rec, out)
     if exc is not None:
         return dict(stage='classify', exc=exc)
     st, step = D.stretches(db)
+    K.label_hole(st, out)
     flags, inter = read_classification(db)
     return dict(stage='done', stretches=st, step=step, flags=flags, inter=inter)
 
 
 def check_cl(recs, out, label):
     strs, meta = [], []
+    recs = [K.with_verbosity(rec, k) for k, rec in enumerate(recs)]
     for k, rec in enumerate(recs):
         d = D.scratch(PROP, 'cl_db')
-        r = cl_case(rec, d)
+        r = cl_case(rec, d, out)
         out.evaluations += 1
         out.count('CL:' + rec['cls'])
+        if rec.get('fine', 1) > 1:
+            out.count('CL-fine-water-level(x%d)%s' % (rec['fine'], '+island' if rec.get('island') else ''))
         case = dict(level='CL', rec=rec)
         if r['stage'] == 'load':
             out.count('CL-load-refused')
@@ -308,10 +313,16 @@ def run(ctx, out):
         out.notes.append('exhaustive: all %d pairs of equal-length boolean vectors up to length 7 and '
                          'all %d vectors up to length 12' % (len(ex), len(exv)))
     recs = [G.gen_record(rng, G.CLASSES[k % len(G.CLASSES)]) for k in range(ncl)]
+    # a third of the records with the water level logged 2-3 times per rainfall step, most of those with an
+    # island of readings between two outages (data-interval numbers with a hole); own stream: the records
+    # themselves are the same as without this stage
+    recs = G.fine_share(recs, C.rng_for(seed, PROP, 'fine'), every=3, phase=1)
     check_cl(recs, out, 'cl')
     out.rule = ('FL: seeded boolean vector pairs (random, sparse, all/no rain, blocks, unequal lengths) '
                 'through get_mystery_jump_mask / get_true_interval_masks; CL: synthetic records of 10 '
-                'classes through the CLI load+classify, one case per gap-free stretch. Non-trivial: the '
+                'classes through the CLI load+classify (classify rotating no flag / -v / -vv / -vvv; a third of '
+                'the records with a 2-3x finer water level series, outages and an island of readings that makes '
+                'the stored data-interval numbers skip one), one case per gap-free stretch. Non-trivial: the '
                 'mask has both values after some rain (FL), >= 2 runs (runs), or a stretch with a recorded '
                 'interval and an unexplained rise after rain (CL); distinct by the boolean vectors.')
     out.samples = [dict(level='FL', jump=j, rain=r) for j, r in gen_bool_pairs(C.rng_for(seed, 's'), 3)[:2]]
